@@ -163,6 +163,9 @@ def shared_writes(P, funcs=None):
                         r = resolve_shared(P, f, t.value, cfgnode()) if isinstance(t.value, (ast.Name, ast.Attribute)) else None
                         if r and r.startswith(('class:', 'module:')):
                             out.append(dict(func=f, node=n, target=f'{r}.{t.attr}', kind='attr-assign'))
+                        elif r and r.startswith(('classattr:', 'global:')):
+                            # cls._pool.item = ... : an attribute of an object that exists once per class / module
+                            out.append(dict(func=f, node=n, target=f'{r}.{t.attr}', kind='attr-assign'))
             elif isinstance(n, ast.Delete):
                 for t in n.targets:
                     if isinstance(t, ast.Subscript):
@@ -201,6 +204,68 @@ def extra_shared_writes(P, funcs):
             if dn in CACHE_DECOS:
                 out.append(dict(func=f, node=f.node, target=f'memo:{f.fq}', kind='memo'))
         g = f.cfg
+        # closure-object: a nested function that outlives the call of its enclosing function (it is returned / stored) and writes into an
+        # object of that enclosing scope: one object for everybody who later calls the closure
+        if f.parent is not None and not isinstance(f.parent.node, ast.Lambda):
+            pf = f.parent
+            escapes = any(isinstance(x, ast.Return) and x.value is not None and any(isinstance(y, ast.Name) and y.id == f.name for y in ast.walk(x.value))
+                          for x in walk_shallow(pf.node))
+            if escapes:
+                enc = set(pf.params) | set(pf.rd.locals)
+                mine = set(f.params) | set(f.rd.locals)
+                for st in walk_shallow(f.node):
+                    tg = st.targets if isinstance(st, ast.Assign) else ([st.target] if isinstance(st, ast.AugAssign) else [])
+                    flat = []
+                    for t in tg:
+                        flat += list(t.elts) if isinstance(t, (ast.Tuple, ast.List)) else [t]
+                    for t in flat:
+                        b = t
+                        while isinstance(b, (ast.Attribute, ast.Subscript)):
+                            b = b.value
+                        if isinstance(t, (ast.Attribute, ast.Subscript)) and isinstance(b, ast.Name) and b.id in enc and b.id not in mine and b.id not in ('self', 'cls'):
+                            out.append(dict(func=f, node=st, target=f'closure-object:{pf.fq}.{b.id}', kind='attr-assign' if isinstance(t, ast.Attribute) else 'item-assign'))
+        # class-object handed out: a function returns a mutable container that exists once per class (`return cls._empty`)
+        oc = f.owner_cls
+        if oc is not None:
+            for st in walk_shallow(f.node):
+                if isinstance(st, ast.Return) and isinstance(st.value, ast.Attribute) and isinstance(st.value.value, ast.Name) \
+                        and st.value.value.id in ('cls', 'self', oc.name) and st.value.attr in oc.attrs:
+                    cv = oc.attrs[st.value.attr]
+                    if isinstance(cv, (ast.Dict, ast.List, ast.Set)) and not _assigned_on_instances(P, oc, st.value.attr):
+                        out.append(dict(func=f, node=st, target=f'class-object:{oc.fq}.{st.value.attr}', kind='handed-out'))
+        # default-app write: a module-level helper writes through Globals.request / Globals.response (the default application's objects),
+        # whichever application is serving the request
+        if f.cls is None and f.parent is None and f.module.name == 'ombott.ombott':
+            for st in walk_shallow(f.node):
+                tg = st.targets if isinstance(st, ast.Assign) else ([st.target] if isinstance(st, ast.AugAssign) else [])
+                for t in tg:
+                    b = t
+                    while isinstance(b, (ast.Attribute, ast.Subscript)):
+                        b = b.value
+                    if isinstance(t, (ast.Attribute, ast.Subscript)) and isinstance(b, ast.Name) and f.rd.is_local(b.id):
+                        ns = g.node_of_stmt(st)
+                        for d in (f.rd.at(ns[0], b.id) if ns else []):
+                            if d.value is not None and (dotted(d.value) or '').startswith('Globals.'):
+                                out.append(dict(func=f, node=st, target=f'default-app:{dotted(d.value)}', kind='attr-assign' if isinstance(t, ast.Attribute) else 'item-assign'))
+        # module-object handed out: a per-request accessor returns (or stores in the request environ) a mutable object created once at import
+        if f.module.name.startswith('ombott.request_pkg') and f.cls is not None:
+            for st in walk_shallow(f.node):
+                vals = []
+                if isinstance(st, ast.Return) and st.value is not None:
+                    vals.append(st.value)
+                elif isinstance(st, ast.Assign) and any(isinstance(t, ast.Subscript) and (dotted(t.value) or '').endswith('environ') for t in st.targets):
+                    vals.append(st.value)
+                for v in vals:
+                    ns = g.node_of_stmt(st)
+                    cands = [v] if isinstance(v, ast.Name) else []
+                    if isinstance(v, ast.Name) and f.rd.is_local(v.id) and ns:
+                        cands = [d.value for d in f.rd.at(ns[0], v.id) if d.kind == 'assign' and isinstance(d.value, ast.Name)]
+                    for c_ in cands:
+                        if isinstance(c_, ast.Name) and not f.rd.is_local(c_.id) and len(f.module.assigns.get(c_.id, ())) == 1:
+                            mv = f.module.assigns[c_.id][0]
+                            if isinstance(mv, (ast.Dict, ast.List, ast.Set)) or (isinstance(mv, ast.Call) and (dotted(mv.func) or '').split('.')[-1] not in
+                                                                                  ('compile', 'frozenset', 'tuple', 'getLogger', 'namedtuple', 'TypeVar', 'object')):
+                                out.append(dict(func=f, node=st, target=f'module-object:{f.module.name}.{c_.id}', kind='handed-to-request'))
         for n in walk_shallow(f.node):
             targets = []
             if isinstance(n, ast.Assign):
